@@ -11,6 +11,16 @@ ALPHA = {
 }
 
 
+# the characters each decoder accepts (the sets of the theorems C18_b32_invalid / C18_b64_invalid / C18_z85_invalid): the alphabet, in
+# either letter case for the two base-32 variants, '=' for RFC 4648 and base64, the aliases I L O for Crockford
+ACCEPT = {
+    'base32': set(ALPHA['base32'] + ALPHA['base32'].lower()),
+    'base32hex': set(ALPHA['base32hex'] + ALPHA['base32hex'].lower() + 'ILOilo'),
+    'base64': set(ALPHA['base64']),
+    'zero85': set(ALPHA['zero85']),
+}
+
+
 class C18(XsProp):
     id = 'C18'
     rule = ('byte strings: every single byte, boundary patterns of length 2..5 (00/ff/80/7f mixes), every length 0..40 and random lengths '
@@ -77,6 +87,9 @@ class C18(XsProp):
                     t = t + rng.choice(['=', '==', '===', '#', '##'])
                 elif k < 0.6:
                     t = rng.choice(['=', '#']) + t
+                elif k < 0.7 and n:
+                    # the valid encoding of some bytes with the other decoder's padding / a stray pad inside
+                    t = t.rstrip('=') + rng.choice(['=', '====', '======']) if rng.random() < 0.7 else t[:n // 2] + '=' + t[n // 2:]
                 arg = rng.choice(['str', 'str', 'str', 'int', 'none'])
                 if '"' in t or '\\' in t:
                     t = t.replace('"', 'q').replace('\\', 'b')
@@ -126,6 +139,10 @@ class C18(XsProp):
                     fails.append(('case: %s\nresult: %s' % (c, o[:800]), 'decoding raised an error instead of yielding nil'))
                 elif got and got[-1] != 'N' and not got[-1].startswith('B'):
                     fails.append(('case: %s\nresult: %s' % (c, o[:800]), 'decoding produced something that is neither nil nor bytes'))
+                elif st[1].startswith('push S') and got[-1:] != ['N'] and any(
+                        ch not in ACCEPT[src_of(c)[0].rstrip('>')] for ch in bytes.fromhex(st[1][6:].replace('-', '')).decode('utf-8')):
+                    fails.append(('case: %s\ntext: %r\nresult: %s' % (c, bytes.fromhex(st[1][6:].replace('-', '')).decode('utf-8'), o[:300]),
+                                  '`%s` decoded text that contains a character outside its alphabet' % src_of(c)[0]))
                 elif len(got) != 1:
                     # the decoder takes one argument and yields one value: the text must not stay behind under the nil
                     fails.append(('case: %s\nresult: %s' % (c, o[:800]), 'decoding left %d values on the stack instead of the one result (nil or bytes)' % len(got)))
